@@ -97,7 +97,7 @@ def run(pid, tier_, replay=None):
     for i in range(nrand):
         scenarios.append(bp.random_scenario(rng, "seeded/%d/%d" % (seed, i), prof))
     if pid == "C10":
-        scenarios.extend(bp.race_scenarios(rng, 450 if quick else 6000, seed))
+        scenarios.extend(bp.race_scenarios(rng, 450 if quick else 3000, seed))
     if pid == "C11":
         scenarios.extend(bp.storm_scenarios(rng, 180 if quick else 3000, seed))
     binp_f = pool.submit(bp.build_harness, pid == "C11")
